@@ -11,7 +11,10 @@ HDR = 'From VZ Require Import Base.Prelude Model.Warp Model.WarpEq.\nOpen Scope 
 
 
 def gQ(x):
-  fr = Fraction(float(x))
+  x = float(x)
+  if x != x or x in (float('inf'), float('-inf')):
+    return '(-987654321 # 1)' # a non-finite observation: printed as a value no model output equals
+  fr = Fraction(x)
   return '(%d # %d)' % (fr.numerator, fr.denominator)
 
 
